@@ -227,14 +227,15 @@ static bool add_label(AsmState *state, const char *name, uint32_t offset) {
     return true;
 }
 
-static void add_patch(AsmState *state, const char *label, uint32_t code_offset, uint32_t instr_start) {
-    if (state->patch_count >= MAX_PATCHES) return;
+static bool add_patch(AsmState *state, const char *label, uint32_t code_offset, uint32_t instr_start) {
+    if (state->patch_count >= MAX_PATCHES) return false;
     Patch *p = &state->patches[state->patch_count++];
     strncpy(p->label, label, sizeof(p->label) - 1);
     p->label[sizeof(p->label) - 1] = '\0';
     p->code_offset = code_offset;
     p->instr_start = instr_start;
     p->function = state->current_function;
+    return true;
 }
 
 /* ========================================================================
@@ -297,8 +298,12 @@ static uint32_t encode_operand(uint8_t *buf, OperandType type,
                              "Expected label or i32 operand");
                     return 0;
                 }
-                add_patch(state, label, state->fn_code_size + (uint32_t)(buf - (state->fn_code + state->fn_code_size)),
-                          instr_start);
+                if (!add_patch(state, label, state->fn_code_size, instr_start)) {
+                    result->error = ASM_ERR_MEMORY;
+                    snprintf(result->message, sizeof(result->message),
+                             "Too many label references in one function (max %d)", MAX_PATCHES);
+                    return 0;
+                }
                 /* Placeholder - will be patched */
                 memset(buf, 0, 4);
                 return 4;
